@@ -110,6 +110,7 @@ class World:
         self.expected_failed: list = []
         self.expected_closed: list = []
         self.stats = Counter()
+        self.closed_uids: Dict[int, set] = {}
         self.shapes = set()
         self.rounds = 0
         self.received_log: Dict[int, list] = {}  # per conn: tagged seqs in arrival order
@@ -181,7 +182,7 @@ class World:
         info = dict(id=op["id"], logger=op["logger"], daemon=op["daemon"], multi=op["multi"], name=name,
                     pid=op.get("pid", 4242))
         if op["ver"] in ("v2", "v2v1"):
-            self._send(m, P.build(P.MT_CONNECT_V2, v2, src_mod=op["id"], timecode=self.timecode),
+            self._send(m, P.build(P.MT_CONNECT_V2, v2, src_mod=op.get("hsrc", op["id"]), timecode=self.timecode),
                        dict(kind="connect", ver="v2", **info))
         if op["ver"] in ("v1", "v2v1"):
             self._send(m, P.build(P.MT_CONNECT, v1, src_mod=op["id"], timecode=self.timecode),
@@ -208,6 +209,11 @@ class World:
                     sh=op.get("sh", 0), size=op["size"], payload=payload)
         self.pubs[seq] = unit
         self._send(m, fr, unit, op.get("seg", 0))
+
+    def op_storm(self, op):
+        """n publishes of n distinct (undefined) message types, 8 bytes each, to everybody."""
+        for i in range(op["n"]):
+            self.op_pub({"op": "pub", "c": op["c"], "type": op["base"] + i, "dm": 0, "dh": 0, "size": 8, "src": op["src"]})
 
     def op_ready(self, op):
         m = self._mod(op)
@@ -620,9 +626,10 @@ class World:
             m.mod_id = -(1000 + m.idx)  # placeholder until the ACK tells the assigned id
             m.id_pending = True
         self._ack_event(m)
-        # CLIENT_INFO follows the acknowledgement (when the acknowledgement could not be written the
-        # module is gone already; whether CLIENT_INFO is still published then is unspecified)
-        self._model_client_info(m, optional=not m.tracked)
+        # CLIENT_INFO follows the acknowledgement; when the acknowledgement could not be written the module is gone
+        # already and is not announced (a departed client is never described again after its CLIENT_CLOSED)
+        if m.tracked:
+            self._model_client_info(m)
 
     @staticmethod
     def _u(u):
@@ -767,6 +774,16 @@ class World:
             import hashlib
 
             self.received_log[m.idx].append(("M", t, hashlib.sha1(fr.payload).hexdigest()[:12]))
+        if fr.src_mod_id == 0 and t in (P.MT_CLIENT_CLOSED, P.MT_CLIENT_INFO) and len(fr.payload) >= P.CLIENT_INFO.size:
+            # a departed client leaves no trace: once a connection has been reported closed, the manager never describes it
+            # again (the uid is unique per accepted connection)
+            uid = P.parse_client_info(fr.payload)["uid"]
+            seen = self.closed_uids.setdefault(m.idx, set())
+            if t == P.MT_CLIENT_CLOSED:
+                seen.add(uid)
+            elif uid in seen:
+                self.viol("closed/announced-after-closed", f"conn {m.idx} received CLIENT_INFO for the connection with uid {uid} "
+                          f"({P.parse_client_info(fr.payload)}) after the CLIENT_CLOSED notice for that connection")
         if t == P.MT_ACKNOWLEDGE:
             if m.id_pending and m.connected:
                 self._learn_dynamic_id(m, fr.dest_mod_id)
